@@ -121,6 +121,12 @@ structure Config (W : Type) where
   resolve : Option String → IncludeScript → String := fun _ i => i.url     -- systemPrefix / urlFn resolution
   fetch : String → FetchRes := fun _ => .missing
 
+/-- result of evaluating an argument list -/
+inductive ArgsOut (W : Type) where
+  | ok (vs : List Value) (st : State W)
+  | err (e : RtErr) (st : State W)
+  | oof
+
 /-- `call f args st` : how the evaluator invokes a function value -/
 abbrev CallFn (W : Type) := Value → List Value → State W → Out W
 
@@ -220,5 +226,29 @@ def evalIf (cfg : Config W) (call : CallFn W) (locals : Option Env) : List Expr 
       | .ok v st1 => if cfg.host.truthy v st1.world then evalExpr cfg call locals t st1 else evalExpr cfg call locals f st1
       | o => o
 end
+
+/-! ## calls: the wrapper of runtime.py:235-249, library interaction trees, script functions (runtime.py:151-164) -/
+
+/-- run a library interaction tree; call-backs go through `call` (one level less fuel, supplied by `callValue`) -/
+def runTree (cfg : Config W) (call : CallFn W) (fname : Name) : LibTree W → State W → Out W
+  | .ret (.ok v) w, st => .ok v { st with world := w }
+  | .ret (.fail v) w, st => .ok v { st with world := if cfg.debug then cfg.host.logFailure fname w else w }
+  | .ret (.rt msg) w, st => .err (.host msg) { st with world := w }
+  | .call f args w k, st =>
+      match call f args { st with world := w } with
+      | .ok v st1 => runTree cfg call fname (k v st1.world) st1
+      | o => o
+  | .globalGet n w k, st => runTree cfg call fname (k (st.globals.get? n) w) { st with world := w }
+  | .globalSet n v w k, st => runTree cfg call fname (k w) { st with globals := st.globals.set n v, world := w }
+
+/-- parameter binding of `_script_function` (runtime.py:152-163) -/
+def bindArgs (host : Host W) : List Name → Bool → List Value → W → Env × W
+  | [], _, _, w => ([], w)
+  | [p], true, as, w =>                                   -- the last parameter of a lastArgArray function
+      let (arr, w1) := host.newArray as w
+      ([(p, arr)], w1)
+  | p :: ps, laa, as, w =>
+      let (rest, w1) := bindArgs host ps laa as.tail w
+      (Env.set rest p (as.head?.getD .null) |> fun _ => (p, as.head?.getD .null) :: rest, w1)
 
 end Machine
